@@ -9,6 +9,7 @@ import PV.Model.Version
 import PV.Model.RegAlloc
 import PV.Model.RaInsert
 import PV.Model.Fold
+import PV.Model.Constexpr
 import PV.Gen.Tables
 import PV.DriverRun
 /-! One-JSON-object-in / one-JSON-object-out driver over the executable models. -/
@@ -132,6 +133,9 @@ def handleE (j : Json) : Except String Json := do
       let run := if tbl == "bin" then PV.Fold.icAlu opcode args else (match args with | [a] => PV.Fold.icUnop opcode a | _ => none)
       let jo (x : Option Int) := match x with | some n => Json.num (JsonNumber.fromInt n) | none => Json.null
       pure (Json.mkObj [("ok", Json.mkObj [("value", jo v), ("is_bool", Json.bool isBool), ("opcode", Json.str opcode), ("run", jo run)])])
+  | "forbidden" =>
+    let src ← natsOf (← j.getObjVal? "src")
+    pure (Json.mkObj [("ok", Json.bool (PV.Constexpr.hasForbidden (src.map Char.ofNat)))])
   | "check-fall" => do pure (Json.mkObj [("ok", ← PV.DriverRun.checkFallCmd j)])
   | "run-regions" => do pure (Json.mkObj [("ok", ← PV.DriverRun.runRegions j)])
   | "check-alloc" => do pure (Json.mkObj [("ok", ← PV.DriverRun.checkAlloc j)])
